@@ -3,7 +3,7 @@
     // C05 — paired emission in codegen and state save/restore in the VM are G-CG / G-VM (the installed Kani crashes on
     // CodeGenerator; State is not constructible under Kani; Verus rejects closures over &mut State): BOUNDED native
     // stand-in on the real engine.
-//# ob name=scoped_constructs_native role=native_bounded fn=compiler::codegen::compile_stmt+vm::{eval_macro,perform_include,perform_super,call_block}+State::{with_execution_state,with_auto_escape} kind=bounded bound="11 scoped constructs (for, for-else taken and not taken, recursive for, with, set-block, filter-block, autoescape, macro, call block, block, include) each wrapped around every other one (121 two-level nestings) with a probe before / inside / after; error paths: failing macro / call block / include / super swallowed by a host function; from-import and extends-in-include inside captures; nested autoescape; 6 include outcomes (found, list with missing entries, everything missing with ignore missing) x 8 shells with macros declared before / after the include against the same shell with the included text in place" stmt="every scoped construct leaves variable scope, output capturing and the auto-escape mode exactly as it found them on every path (including error paths survived by the host), text written after it reaches the real output, assignments made inside loops / with / macros / blocks are invisible outside while top-level and if-branch assignments persist"
+//# ob name=scoped_constructs_native role=native_bounded fn=compiler::codegen::compile_stmt+vm::{eval_macro,perform_include,perform_super,call_block}+State::{with_execution_state,with_auto_escape} kind=bounded bound="11 scoped constructs (for, for-else taken and not taken, recursive for, with, set-block, filter-block, autoescape, macro, call block, block, include) each wrapped around every other one (121 two-level nestings) with a probe before / inside / after; error paths: failing macro / call block / include / super swallowed by a host function; from-import and extends-in-include inside captures; nested autoescape; a failure inside 11 scoped constructs within a macro body / a call body swallowed by a host function, in escaping / non-escaping templates with / without blocks; 6 include outcomes (found, list with missing entries, everything missing with ignore missing) x 8 shells with macros declared before / after the include against the same shell with the included text in place" stmt="every scoped construct leaves variable scope, output capturing and the auto-escape mode exactly as it found them on every path (including error paths survived by the host), text written after it reaches the real output, assignments made inside loops / with / macros / blocks are invisible outside while top-level and if-branch assignments persist"
     fn scoped_constructs_native() {
         use crate::{Environment, Error, ErrorKind, State};
         use crate::value::Value;
@@ -68,6 +68,31 @@
                    {% with w = 'W' %}{% for it in ['I'] %}[{{ attempt(bad) }}]{{ x }}/{{ w }}/{{ it }}/{{ loop.index }}/{{ leak is defined }}{% endfor %}{{ w }}{% endwith %}|{{ x }}/{{ w is defined }}END";
         let out = env.render_named_str("e.html", src, ()).unwrap();
         assert!(out == "[ERR]outer/W/I/1/FalseW|outer/FalseEND", "state after a failed macro call: {out:?}");
+        // error paths, systematically: an error raised inside every scoped construct within a macro body or a call body,
+        // swallowed by the host function; scope, capture and escape mode (probed by printing a metacharacter) are the
+        // same before and after, in escaping and non-escaping templates, with and without blocks in the template
+        {
+            let opens: &[(&str, &str)] = &[
+                ("", ""), ("{% with w9 = 1 %}", "{% endwith %}"), ("{% for i9 in [1, 2] %}", "{% endfor %}"), ("{% set c9 %}", "{% endset %}"), ("{% filter upper %}", "{% endfilter %}"),
+                ("{% autoescape true %}", "{% endautoescape %}"), ("{% autoescape false %}", "{% endautoescape %}"), ("{% autoescape 'json' %}", "{% endautoescape %}"),
+                ("{% for i9 in [[1]] recursive %}{% if i9 is sequence %}{{ loop(i9) }}{% else %}", "{% endif %}{% endfor %}"), ("{% if true %}", "{% endif %}"),
+                ("{% autoescape false %}{% with w9 = 1 %}{% set c9 %}", "{% endset %}{% endwith %}{% endautoescape %}"),
+            ];
+            let probe = "{{ x }}/{{ leak is defined }}/{{ '<' }}/{{ w9 is defined }}/{{ loop is defined }}";
+            for name in ["p.html", "p.txt"] { for with_block in [false, true] { for (o, c) in opens {
+                let blk = if with_block { "{% block b %}blk{% endblock %}" } else { "" };
+                let via_macro = format!("{{% set x = 'top' %}}{blk}{{% macro bad() %}}{o}{{% set leak = 1 %}}{{{{ boom() }}}}{c}{{% endmacro %}}A[{probe}]{{{{ attempt(bad) }}}}B[{probe}]");
+                let via_caller = format!("{{% set x = 'top' %}}{blk}{{% macro w() %}}<{{{{ attempt(caller) }}}}|{probe}>{{% endmacro %}}A[{probe}]{{% call w() %}}{o}{{% set leak = 1 %}}{{{{ boom() }}}}{c}{{% endcall %}}B[{probe}]");
+                for src in [via_macro, via_caller] {
+                    let out = env.render_named_str(name, &src, ()).unwrap_or_else(|e| panic!("{name}: {src:?}: {e:#}"));
+                    let a = out.split("A[").nth(1).and_then(|r| r.split(']').next()).unwrap_or_else(|| panic!("{out:?}"));
+                    let b = out.split("B[").nth(1).and_then(|r| r.split(']').next()).unwrap_or_else(|| panic!("{out:?}"));
+                    assert!(out.contains("ERR"), "{name}: {src:?}: the failure was not reported to the host: {out:?}");
+                    assert!(a == b, "{name}: state after a swallowed failure differs from before: {src:?} rendered {out:?}");
+                    if let Some(inner) = out.split('|').nth(1).and_then(|r| r.split('>').next()) { if src.contains("attempt(caller)") { assert!(inner == a, "{name}: state inside the calling macro after a swallowed caller() failure: {src:?} rendered {out:?}"); } }
+                }
+            }}}
+        }
         // loop controls in nested loops leave the inner loop only (no with / capture involved)
         #[cfg(feature = "loop_controls")]
         {
